@@ -266,7 +266,15 @@ func c05RunConfig(job *Job, res *Result, cfg c05Config) {
 		}
 	}
 	filterOK := cfg.Filter != "nomatch" && cfg.Filter != "nowhere" && cfg.Filter != "nowhereeval"
-	ep := newFakeEndpoint(nil)
+	var script []int
+	if cfg.Pop == "flaky" {
+		// the webhook endpoint fails every second request once: the retries must
+		// make the webhook see what the channel and the live connection see
+		for i := 0; i < 200; i++ {
+			script = append(script, []int{200, 500}[i%2])
+		}
+	}
+	ep := newFakeEndpoint(script)
 	defer ep.Close()
 	x := runExec(job, freezeAllBut("manager", "backgroundExpiring"), func(x *Exec) {
 		in := x.Start("L", x.dir+"/L", 9001, nil)
@@ -382,7 +390,7 @@ func c05RunConfig(job *Job, res *Result, cfg c05Config) {
 }
 
 func checkC05(job *Job, res *Result) {
-	res.Rule = "SEQ over configurations: fence shape {NEARBY point, WITHIN bounds, INTERSECTS polygon} x 33 DETECT settings (default + all 32 subsets) x COMMANDS {none,set,del,'set,fset'} x filter {none, MATCH hit, MATCH miss, WHERE hit, WHERE miss, WHEREEVAL hit / miss (scripts reading ARGV)} x population of other hooks {none, disjoint, overlapping, outside-detecting, 70 disjoint, same names previously defined with another area, fences on other collections covering the area}; per configuration an 18-step history covering every transition of the table, FSET, DEL, PDEL, expiry, DROP (+4 steps of an extended object straddling the border; +5 filter-verdict flips under WHERE; fences created with LIMIT 2; a 106-notification prefix exceeding the default LIMIT); receivers: channel, webhook, live; distinct = distinct (configuration class, step, expected list)"
+	res.Rule = "SEQ over configurations: fence shape {NEARBY point, WITHIN bounds, INTERSECTS polygon} x 33 DETECT settings (default + all 32 subsets) x COMMANDS {none,set,del,'set,fset'} x filter {none, MATCH hit, MATCH miss, WHERE hit, WHERE miss, WHEREEVAL hit / miss (scripts reading ARGV)} x population of other hooks {none, disjoint, overlapping, outside-detecting, 70 disjoint, same names previously defined with another area, fences on other collections covering the area, none but with a webhook endpoint failing every second request}; per configuration an 18-step history covering every transition of the table, FSET, DEL, PDEL, expiry, DROP (+4 steps of an extended object straddling the border; +5 filter-verdict flips under WHERE; fences created with LIMIT 2; a 106-notification prefix exceeding the default LIMIT); receivers: channel, webhook, live; distinct = distinct (configuration class, step, expected list)"
 	res.Assumptions = append(res.Assumptions,
 		"a 'del' for an object that was outside the area (or fails the filter) is allowed but not required; 'drop' is required only under default detection; an FSET on an object that fails WHERE before and after may or may not produce 'outside'; a live fence connection is not asserted for DROP",
 		"an object that does not satisfy the WHERE filter counts as outside the area (a SET/FSET that flips the verdict of an object inside the area is an enter or an exit)")
@@ -392,12 +400,12 @@ func checkC05(job *Job, res *Result) {
 		for d := -1; d < 32; d++ {
 			for _, a := range []string{"", "set", "del", "set,fset"} {
 				for _, fl := range []string{"none", "match", "nomatch", "where", "nowhere", "limit", "whereeval", "nowhereeval"} {
-					for _, p := range []string{"none", "disjoint", "overlap", "outside", "many", "redefined", "long", "otherkey"} {
+					for _, p := range []string{"none", "disjoint", "overlap", "outside", "many", "redefined", "long", "otherkey", "flaky"} {
 						if quick {
 							// quick: full DETECT x shape x population for the plain fence; filters and COMMANDS on a DETECT sample
 							plain := a == "" && fl == "none"
 							sample := d == -1 || d == 3 || d == 12 || d == 31
-							if !(plain && (p == "none" || p == "overlap" || p == "otherkey" || ((p == "many" || p == "redefined") && d%4 == 3) || p == "long" && (d == -1 || d == 1)) || sample && p == "none") {
+							if !(plain && (p == "none" || p == "overlap" || p == "otherkey" || ((p == "many" || p == "redefined") && d%4 == 3) || (p == "long" || p == "flaky") && (d == -1 || d == 1)) || sample && p == "none") {
 								continue
 							}
 						}
